@@ -512,6 +512,8 @@ fn replay_one(kind: Kind, beh: &Value, rt: &tokio::runtime::Runtime) -> Result<u
     let ncallers = beh["results"].as_array().map(|a| a.len()).unwrap_or(0) as u64;
     verif::release_all();
     verif::gate("cm_reader_read");
+    verif::gate("cm_fail_start");
+    verif::gate("cm_fail_mid");
     for id in 1..=ncallers + 1 {
         verif::gate(&format!("cm_allocated:{id}"));
         verif::gate(&format!("cm_registered:{id}"));
@@ -568,8 +570,33 @@ fn replay_one(kind: Kind, beh: &Value, rt: &tokio::runtime::Runtime) -> Result<u
                 Some((id, _)) if id == x => {}
                 other => return finish(client, Err(fail(format!("the server read {other:?}, the specification's wire has request id {x} first")))),
             },
+            "WriteFail" => {
+                // the writer is already shut: the write fails, the caller removes its own entry and returns the error
+                let id = id_of[&x];
+                verif::release(&format!("cm_registered:{id}"));
+                let got = rx_of.remove(&x).and_then(|rx| rx.recv_timeout(wait).ok());
+                match got {
+                    Some((cls, _, _, _)) if cls == "err" => {}
+                    Some((cls, rid, rtag, msg)) => return finish(client, Err(fail(format!("caller {x} wrote on a shut writer and returned ({cls}, id {rid}, tag {rtag}; {msg}) instead of an error")))),
+                    None => return finish(client, Err(fail(format!("caller {x} wrote on a shut writer and did not return (parked after a successful write: {})", verif::await_parked(&format!("cm_written:{id}"), 1, Duration::from_millis(1)))))),
+                }
+            }
+            "SrvClose" => { let _ = srv.stream().shutdown(Shutdown::Write); }
+            "SrvMalformed" => { if matches!(srv, Srv::Ws(_)) { srv.send_text(); } else { let _ = srv.stream().try_clone().map(|mut s| s.write_all(&[0xAB; 64])); } }
+            "Fail1" => {
+                verif::release("cm_fail_start");
+                if !verif::await_parked("cm_fail_mid", 1, wait) { return finish(client, Err(fail("the failing reader did not reach the point between shutting the writer and draining the pending map".into()))); }
+            }
+            "Fail2" => {
+                let before = verif::passed("cm_fail_mid");
+                verif::release("cm_fail_mid");
+                let t0 = Instant::now();
+                while verif::passed("cm_fail_mid") == before { if t0.elapsed() > wait { return finish(client, Err(fail("the failing reader did not finish".into()))); } std::thread::sleep(Duration::from_micros(100)); }
+            }
             "SrvReply" => { srv.send(&resp_frame(x, x)); }
             "SrvJunk" => { if x == 0 { srv.send(&resp_frame(777_000 + i as u64, 99)); } else { srv.send(&resp_frame(x, 99)); } }
+            "Recv" if x == 1 => { if !verif::await_parked("cm_fail_start", 1, wait) { return finish(client, Err(fail("the reader did not start failing the connection after the fault".into()))); } }
+            "Dispatch" if x == 1 => {}
             "Recv" => { if !verif::await_parked("cm_reader_read", 1, wait) { return finish(client, Err(fail("the reader did not take the next frame".into()))); } }
             "Dispatch" => {
                 let before = verif::passed("cm_reader_read");
